@@ -539,3 +539,7 @@ impl From<Variation> for ffi::Variation {
         }
     }
 }
+
+#[cfg(kani)]
+#[path = "/verif/harness/ffi_request.rs"]
+mod verif_harness;
